@@ -304,7 +304,8 @@ def run_case(b: Batch, cfg, filters, led, tp, _retry=False):
 
 def filter_family(r, tier):
     concrete, bases = classes()
-    fam = [frozenset([c]) for c in concrete + bases]
+    # the empty filter (accept nothing) is a filter too
+    fam = [frozenset([c]) for c in concrete + bases] + [frozenset()]
     pairs = [frozenset(p) for p in itertools.combinations(concrete + bases, 2)]
     return fam, pairs, concrete + bases
 
